@@ -166,3 +166,38 @@ def model_float(model, name, default):
         return float(Fraction(model[name]))
     except Exception:
         return default
+
+
+def integer_input_cases(classes, methods_of, name_fmt='%s'):
+    """Integer-typed x (python ints, integer ndarrays) with an integer-valued f: the derivative object returns what it
+    returns for the same x given as floats.  dtype truncation is invisible in object arrays, so these cases are
+    executed with the real numpy on concrete data (bounded stand-in, kind='bounded').
+    classes: list of (class name, f, list of x)."""
+    import warnings
+    from ndvc import solve
+    core = mods()['core']
+    out = []
+    for clsname, f, xs, kw in classes:
+        K = getattr(core, clsname)
+        for method in methods_of(clsname):
+            bad = []
+            cnt = 0
+            for x in xs:
+                xf = np.asarray(x, dtype=float)
+                if not isinstance(x, np.ndarray) and np.ndim(x) == 0:
+                    xf = float(x)
+                cnt += 1
+                try:
+                    with warnings.catch_warnings():
+                        warnings.simplefilter('ignore')
+                        a = K(f, method=method, **kw)(x)
+                        b = K(f, method=method, **kw)(xf)
+                except Exception as e:
+                    bad.append((repr(x)[:30], repr(e)[:80])); continue
+                a, b = np.asarray(a), np.asarray(b)
+                scale = max(1.0, float(np.max(np.abs(b))) if b.size else 1.0)
+                if a.shape != b.shape or not np.allclose(a, b, rtol=1e-7, atol=1e-7 * scale):
+                    bad.append((repr(x)[:30], a.tolist(), b.tolist()))
+            solve.fact((name_fmt % clsname) + ',%s:integer-typed-x-gives-the-result-of-float-x[%d cases]' % (method, cnt), not bad,
+                       kind='bounded', note=str(bad[:1])[:300])
+    return out
